@@ -314,6 +314,28 @@ def frozen_case(rep):
     S.status.c20_extra = 5
     rep.side('frozen/add_attr-assignable', S.status.c20_extra == 5 and ctl.MS[1].status.c20_extra is None)
     type(S.status).attrs.remove('c20_extra')
+    # an attribute declared for ONE frozen class does not become assignable on another one (same-named classes of other modules included: step status /
+    # level status, the parameter classes of step, level, sweeper, controller)
+    type(S.status).add_attr('c20_only_step_status')
+    others = ((L.status, 'level.status'), (S.params, 'step.params'), (L.params, 'level.params'), (ctl.params, 'controller.params'), (L.sweep.params, 'sweeper.params'))
+    for obj, nm in others:
+        rep.side(f'frozen/declared-on-step.status-not-on/{nm}', _raises(lambda: setattr(obj, 'c20_only_step_status', 1), (TypeError,)) is True)
+    type(S.status).attrs.remove('c20_only_step_status')
+    type(L.status).add_attr('c20_only_level_status')
+    rep.side('frozen/declared-on-level.status-not-on/step.status', _raises(lambda: setattr(S.status, 'c20_only_level_status', 1), (TypeError,)) is True)
+    type(L.status).attrs.remove('c20_only_level_status')
+    # the same with the names the shipped convergence controllers declare (Adaptivity: level status; BasicRestarting: step status)
+    from pySDC.implementations.convergence_controller_classes.adaptivity import Adaptivity
+
+    d_ = valid_desc(1)
+    d_['level_params']['restol'] = -1
+    d_['convergence_controllers'] = {Adaptivity: {'e_tol': 1e-3}}
+    ctl2 = controller_nonMPI(1, dict(CP, mssdc_jac=False), d_)
+    S2, L2 = ctl2.MS[0], ctl2.MS[0].levels[0]
+    for attr in ('error_embedded_estimate', 'increment'):
+        rep.side(f'frozen/level-status-name-on-step.status/{attr}', hasattr(L2.status, attr) and _raises(lambda: setattr(S2.status, attr, 1), (TypeError,)) is True)
+    for attr in ('restart', 'restarts_in_a_row'):
+        rep.side(f'frozen/step-status-name-on-level.status/{attr}', hasattr(S2.status, attr) and _raises(lambda: setattr(L2.status, attr, 1), (TypeError,)) is True)
     P = L.prob
     ro = sorted(P._parNamesReadOnly)
     rep.side('readonly/has-readonly-params', len(ro) >= 1, ro)
